@@ -193,7 +193,9 @@ func (v ReceiverValidator) validateNonBodyParam(
 	}
 
 	isErrType := param.Type.PkgPath == "" && param.Type.Name == "error"
-	isMapType := param.Type.PkgPath == "" && strings.HasPrefix(param.Type.Name, "map[")
+	// Map usages are composites that carry the usage site's package - recognize them by their structure as well
+	isMapType := (param.Type.PkgPath == "" && strings.HasPrefix(param.Type.Name, "map[")) ||
+		(param.Type.Root != nil && param.Type.Root.Kind() == metadata.TypeRefKindMap)
 	isAnEnum := param.Type.SymbolKind == common.SymKindEnum
 
 	isAnAlias, isAPrimitiveAlias := isPrimitiveAlias(param)
